@@ -534,6 +534,11 @@ func (c *Check) ruleRevertRemovesRevertedHeights(rule string) {
 		}
 		lo, hi, ok := lc.cl.rangeOf(arg)
 		if !ok {
+			if !derivesFromValue(arg, lc.cl.phi) {
+				c.Bad(rule, key, lc.call.Pos(), "loop-range", nil,
+					"the loop that collects the hashes of the removed heights asks for a height that does not depend on its counter: the same height is asked every time, so only one of the removed blocks is forgotten - the others stay known at their old heights (a peer on the abandoned branch still passes the same-chain test)")
+				continue
+			}
 			c.Undecided(rule, key, lc.call.Pos(), "height argument is not affine in the loop counter")
 			continue
 		}
@@ -670,7 +675,22 @@ func (c *Check) ruleBenignSentinelsHandled(rule string) {
 					}
 					return isG(a) || isG(b)
 				}, false)
-				avoid, path := reachAvoid(call.Block(), ret.Block(), guard)
+				// ... or the same test made by a small bool helper (`!isSkippedBlockError(err)`): the helper answers
+				// false only where the error was found different from the sentinel
+				viaHelper := condEdge(func(cd Cond) (bool, bool) {
+					if cd.Call == nil {
+						return false, false
+					}
+					h := cd.Call.Call.StaticCallee()
+					if h == nil || h.Pkg == nil || !inModule(h.Pkg.Pkg) || h.Blocks == nil {
+						return false, false
+					}
+					if helperFalseImpliesNotSentinel(h, g) {
+						return true, false
+					}
+					return false, false
+				})
+				avoid, path := reachAvoid(call.Block(), ret.Block(), anyEdge(guard, viaHelper))
 				c.Decide(!avoid, rule, fmt.Sprintf("spynode.(*Node).processBlocks#error-exit-excludes(%s)", g.Name()), ret.Pos(), "must-pass-through", pathWitness(fn, path),
 					"the error exit is reached only after the error was found different from this sentinel",
 					"processBlocks returns (ending block processing) on "+g.Name()+", which ProcessBlock returns for a block that is merely not next / not added after a reorganisation: the later blocks are never processed and no time-out fires")
@@ -720,6 +740,17 @@ func (c *Check) getterShape(fn *ssa.Function) map[string]token.Pos {
 				bin, ok := x.Cond.(*ssa.BinOp)
 				if !ok || !isInt(bin.X) {
 					continue
+				}
+				// "was something found": an index-or-minus-one value tested against -1 / 0 in any spelling
+				if fi := foundIndexOf(bin.X); fi != nil {
+					if k, isC := constInt(bin.Y); isC {
+						switch {
+						case k == -1 && (bin.Op == token.EQL || bin.Op == token.NEQ || bin.Op == token.GTR || bin.Op == token.LEQ),
+							k == 0 && (bin.Op == token.GEQ || bin.Op == token.LSS):
+							out["guard: found("+linOfValue(fi).String()+")"] = bin.Pos()
+							continue
+						}
+					}
 				}
 				if r, ok := relOf(bin.X, bin.Y, bin.Op, true); ok {
 					out["guard: "+canonRel(r)] = bin.Pos()
@@ -2180,7 +2211,15 @@ func (c *Check) ruleTimeoutsFire(rule string) {
 		var limitOnRight bool
 		isElapsed := func(v ssa.Value) bool {
 			call, ok := stripConv(v).(*ssa.Call)
-			if !ok || calleeShort(&call.Call) != "(time.Duration).Seconds" {
+			if !ok {
+				return false
+			}
+			// the duration itself compared with a duration constant (`now.Sub(t) > 60*time.Second`)
+			switch calleeShort(&call.Call) {
+			case "(time.Time).Sub", "time.Since":
+				return true
+			}
+			if calleeShort(&call.Call) != "(time.Duration).Seconds" {
 				return false
 			}
 			for _, a := range call.Call.Args {
@@ -2279,4 +2318,56 @@ func (c *Check) ruleTimeoutsFire(rule string) {
 			}
 		}
 	}
+}
+
+// helperFalseImpliesNotSentinel: every way the bool function h can answer false has found its
+// argument different from the sentinel g (an `==` with g that was false, on an edge or as the
+// returned value itself).
+func helperFalseImpliesNotSentinel(h *ssa.Function, g *ssa.Global) bool {
+	if h.Signature.Results().Len() != 1 {
+		return false
+	}
+	isG := func(v ssa.Value) bool {
+		for _, r := range rootsAll(v) {
+			if u, ok := r.(*ssa.UnOp); ok && u.Op == token.MUL && u.X == ssa.Value(g) {
+				return true
+			}
+			if r == ssa.Value(g) {
+				return true
+			}
+		}
+		return false
+	}
+	neq := equalEdge(func(a, b ssa.Value) bool { return isG(a) || isG(b) }, false)
+	ok := true
+	var judge func(at ssa.Instruction, v ssa.Value, depth int)
+	judge = func(at ssa.Instruction, v ssa.Value, depth int) {
+		if phi, isPhi := v.(*ssa.Phi); isPhi && depth < 4 {
+			for i, e := range phi.Edges {
+				p := phi.Block().Preds[i]
+				judge(p.Instrs[len(p.Instrs)-1], e, depth+1)
+			}
+			return
+		}
+		if b, isC := isConstBool(v); isC && b {
+			return
+		}
+		if bo, isB := v.(*ssa.BinOp); isB && bo.Op == token.EQL && (isG(bo.X) || isG(bo.Y)) {
+			return
+		}
+		if pass, _ := mustPass(at, neq); !pass {
+			ok = false
+		}
+	}
+	n := 0
+	for _, r := range returnsOf(h) {
+		if r.Block().Comment == "recover" {
+			continue
+		}
+		for _, v := range resultValues(r, 0) {
+			n++
+			judge(r, v, 0)
+		}
+	}
+	return ok && n > 0
 }
